@@ -2,7 +2,7 @@
    Finite domains, enumerated completely inside the kernel on the tables REGENERATED from
    pyscsi/pyscsi/scsi_enum_command.py and scsi_command.py on this run. *)
 From Coq Require Import String.
-From PS Require Import Base.Bytes Base.Result Model.Converter Model.Command.
+From PS Require Import Base.Bytes Base.Result Model.Converter Model.Command Model.InitCdb.
 From PS Require Import Spec.SAM Spec.T10Opcodes Gen.Opcodes Gen.Misc Proofs.Opcodes.
 
 (* nothing in the source fell outside the translator's recognised shapes *)
